@@ -150,6 +150,9 @@ class AsyncioConnection(Connection):
         if not self.is_defunct:
             self.error_all_requests(
                 ConnectionShutdown("Connection to %s was closed" % self.endpoint))
+            # closed while the handshake was still under way (e.g. the peer hung up): factory() must not take it for ready
+            if not self.connected_event.is_set():
+                self.last_error = ConnectionShutdown("Connection to %s was closed" % self.endpoint)
             # don't leave in-progress operations hanging
             self.connected_event.set()
 
